@@ -696,7 +696,7 @@ func (cs *ContractSet) parseContractFile(pkgPath, file string) {
 			default:
 				errf(ln, "unknown loop clause %q", kind)
 			}
-		case "trusted", "safety", "nopanic", "overflow", "pure", "strings", "atomic-once", "replay", "note", "inline", "nomodel", "constructor", "requires-lock", "holds-lock", "frame", "uses", "refines", "may-panic", "helper":
+		case "trusted", "safety", "nopanic", "overflow", "pure", "strings", "atomic-once", "replay", "note", "inline", "nomodel", "constructor", "requires-lock", "holds-lock", "frame", "uses", "refines", "may-panic", "helper", "functional":
 			if cur != nil {
 				if rest == "" {
 					rest = "yes"
